@@ -9,6 +9,7 @@ import "runtime"
 
 var cases []func()
 var tr []byte
+var _ = runtime.Goexit
 
 func logs(s string)          { tr = append(tr, s...); tr = append(tr, ' ') }
 func logi(s string, v int)   { tr = append(tr, s...); tr = append(tr, '='); tr = append(tr, itoa(int64(v))...); tr = append(tr, ' ') }
